@@ -670,6 +670,14 @@ func (rw *rewriter) expr(e ast.Expr) ast.Expr {
 				return call("RLock", ptr, rw.newSite(x.Pos(), "rlock"))
 			case "RWMutex.RUnlock":
 				return call("RUnlock", ptr, rw.newSite(x.Pos(), "runlock"))
+			case "Pool.Get":
+				if len(x.Args) == 0 {
+					return call("PoolGet", ptr, rw.newSite(x.Pos(), "pool.get"))
+				}
+			case "Pool.Put":
+				if len(x.Args) == 1 {
+					return call("PoolPut", ptr, x.Args[0], rw.newSite(x.Pos(), "pool.put"))
+				}
 			case "Cond.Wait":
 				return call("CondWait", ptr, rw.newSite(x.Pos(), "condwait"))
 			case "Cond.Signal":
